@@ -107,7 +107,16 @@ fn main() {
         CASE_INDEX.store(i as u64, std::sync::atomic::Ordering::SeqCst);
         CASE_STARTED_MS.store(t_start.elapsed().as_millis() as u64 + 1, std::sync::atomic::Ordering::SeqCst);
         if only.is_some_and(|o| o != i) { continue; }
-        let c = genf(&mut r, i);
+        let c = match std::panic::catch_unwind(std::panic::AssertUnwindSafe(|| genf(&mut r, i))) {
+            Ok(c) => c,
+            Err(payload) => {
+                fam_attempt::force_install_counting_hook();
+                let msg = payload.downcast_ref::<String>().cloned()
+                    .or_else(|| payload.downcast_ref::<&'static str>().map(|s| (*s).to_owned()))
+                    .unwrap_or_else(|| "non-string payload".to_owned());
+                Case { req: "harness.ended".into(), imp: format!("!case-panicked {}", common::hex(&msg)), class: "panicked".into(), nontrivial: true }
+            }
+        };
         for (rl, il) in c.req.lines().zip(c.imp.lines()) {
             writeln!(req, "{rl}").unwrap();
             writeln!(imp, "{il}").unwrap();
